@@ -1131,7 +1131,7 @@ class Processor:
                         intmin, intmax).indices(len(data))
                     for slice_index in range(slice_min, slice_max):
                         sliced_elements.append(NodeCoords(
-                            data[slice_index], data, intmin,
+                            data[slice_index], data, slice_index,
                             translated_path + "[{}]".format(slice_index),
                             ancestry + [(data, slice_index)], pathseg))
                     yield NodeCoords(
